@@ -39,6 +39,7 @@ type ProjectRunner struct {
 	processLogs       map[string]*pclog.ProcessLogBuffer
 	statesMutex       sync.Mutex
 	processStates     map[string]*types.ProcessState
+	processStateLocks map[string]*sync.Mutex // one lock per state object, shared with the Process instances
 	runProcMutex      sync.Mutex
 	runningProcesses  map[string]*Process
 	doneProcMutex     sync.Mutex
@@ -133,7 +134,7 @@ func (p *ProjectRunner) launchProcess(config *types.ProcessConfig, unlessShuttin
 		log.Error().Msgf("Error: Can't get log: %s using empty buffer", err.Error())
 		procLog = pclog.NewLogBuffer(0)
 	}
-	procState, _ := p.GetProcessState(config.ReplicaName)
+	procState, stateMtx := p.getProcessStateRef(config.ReplicaName)
 	isMain := config.Name == p.mainProcess
 	hasMain := p.mainProcess != ""
 	printLogs := !hasMain && !p.isTuiOn
@@ -148,6 +149,7 @@ func (p *ProjectRunner) launchProcess(config *types.ProcessConfig, unlessShuttin
 		withLogger(procLogger),
 		withProcConf(config),
 		withProcState(procState),
+		withStateMutex(stateMtx),
 		withProcLog(procLog),
 		withShellConfig(*p.project.ShellConfig),
 		withPrintLogs(printLogs),
@@ -245,9 +247,27 @@ func (p *ProjectRunner) initProcessStates() {
 	p.statesMutex.Lock()
 	defer p.statesMutex.Unlock()
 	p.processStates = make(map[string]*types.ProcessState)
+	p.processStateLocks = make(map[string]*sync.Mutex)
 	for name, proc := range p.project.Processes {
 		p.processStates[name] = types.NewProcessState(&proc)
+		p.processStateLocks[name] = &sync.Mutex{}
 	}
+}
+
+// getProcessStateRef returns the live state object of a process and the lock that guards it
+func (p *ProjectRunner) getProcessStateRef(name string) (*types.ProcessState, *sync.Mutex) {
+	p.statesMutex.Lock()
+	defer p.statesMutex.Unlock()
+	state, ok := p.processStates[name]
+	if !ok {
+		return nil, nil
+	}
+	mtx, ok := p.processStateLocks[name]
+	if !ok {
+		mtx = &sync.Mutex{}
+		p.processStateLocks[name] = mtx
+	}
+	return state, mtx
 }
 
 func (p *ProjectRunner) initProcessLogs() {
@@ -266,14 +286,15 @@ func (p *ProjectRunner) GetProcessState(name string) (*types.ProcessState, error
 	if proc != nil {
 		return proc.getState(), nil
 	} else {
-		p.statesMutex.Lock()
-		defer p.statesMutex.Unlock()
-		state, ok := p.processStates[name]
-		if !ok {
+		state, mtx := p.getProcessStateRef(name)
+		if state == nil {
 			log.Error().Msgf("Error: process %s doesn't exist", name)
 			return nil, fmt.Errorf("can't get state of process %s: no such process", name)
 		}
-		return state, nil
+		mtx.Lock()
+		defer mtx.Unlock()
+		snapshot := *state
+		return &snapshot, nil
 	}
 }
 
@@ -282,13 +303,13 @@ func (p *ProjectRunner) getProcessStateData(name string, filter filterFn) error 
 	if proc != nil {
 		proc.getStateData(filter)
 	} else {
-		p.statesMutex.Lock()
-		defer p.statesMutex.Unlock()
-		state, ok := p.processStates[name]
-		if !ok {
+		state, mtx := p.getProcessStateRef(name)
+		if state == nil {
 			log.Error().Msgf("Error: process %s doesn't exist", name)
 			return fmt.Errorf("can't get state of process %s: no such process", name)
 		}
+		mtx.Lock()
+		defer mtx.Unlock()
 		filter(state)
 		return nil
 	}
@@ -799,13 +820,16 @@ func (p *ProjectRunner) renameProcess(name string, newName string) {
 	if logs != nil {
 		p.processLogs[newName] = logs
 	}
-	state, err := p.GetProcessState(name)
-	if err == nil {
-		p.statesMutex.Lock()
-		defer p.statesMutex.Unlock()
-		delete(p.processStates, name)
+	if state, mtx := p.getProcessStateRef(name); state != nil {
+		mtx.Lock()
 		state.Name = newName
+		mtx.Unlock()
+		p.statesMutex.Lock()
+		delete(p.processStates, name)
+		delete(p.processStateLocks, name)
 		p.processStates[newName] = state
+		p.processStateLocks[newName] = mtx
+		p.statesMutex.Unlock()
 	}
 	procConf, ok := p.project.Processes[name]
 	if ok {
@@ -846,6 +870,7 @@ func (p *ProjectRunner) removeProcess(name string) error {
 func (p *ProjectRunner) addProcessAndRun(proc types.ProcessConfig) {
 	p.statesMutex.Lock()
 	p.processStates[proc.ReplicaName] = types.NewProcessState(&proc)
+	p.processStateLocks[proc.ReplicaName] = &sync.Mutex{}
 	p.statesMutex.Unlock()
 	p.project.Processes[proc.ReplicaName] = proc
 	p.initProcessLog(proc.ReplicaName)
